@@ -27,3 +27,39 @@ def compile_files(files: dict[str, str], main: str, lookup_paths: list[str], abs
         return res
     finally:
         shutil.rmtree(root, ignore_errors=True)
+
+
+def compile_files_history(steps: list) -> dict:
+    """steps: ["write", {rel: text}] | ["compile", main]; one compiler object is reused for all compile steps. Every compile
+    step is also done with a new compiler object on the same file state: [reused result, fresh result] per compile step."""
+    from core import PERF, ops_from_impl, classify_exc
+    from explorerscript.ssb_converting.ssb_compiler import ExplorerScriptSsbCompiler
+
+    root = tempfile.mkdtemp(prefix="verif_hist_")
+    out = []
+
+    def run(c: Any, main: str) -> dict:
+        p = os.path.join(root, main)
+        try:
+            with open(p, encoding="utf-8") as fh:
+                src = fh.read()
+            c.compile(src, p)
+            return {"ok": True, "ops": ops_from_impl(c.routine_ops)}
+        except BaseException as e:  # noqa
+            if isinstance(e, (KeyboardInterrupt, SystemExit)):
+                raise
+            return {"ok": False, "err": classify_exc(e), "msg": str(e)[:200].replace(root, "@ROOT@")}
+    try:
+        reused = ExplorerScriptSsbCompiler(PERF)
+        for st in steps:
+            if st[0] == "write":
+                for rel, text in st[1].items():
+                    p = os.path.join(root, rel)
+                    os.makedirs(os.path.dirname(p), exist_ok=True)
+                    with open(p, "w", encoding="utf-8") as fh:
+                        fh.write(text)
+            else:
+                out.append([run(reused, st[1]), run(ExplorerScriptSsbCompiler(PERF), st[1])])
+        return {"ok": True, "results": out}
+    finally:
+        shutil.rmtree(root, ignore_errors=True)
